@@ -37,8 +37,9 @@ HookCfgs == {"unset", "nil", "noop", "custom"}
 \* core compositions (abstract): sequence of IO leaves <<accepts this level?, buffered sink?>> plus a flag: Check reaches nothing
 \* "bws-stopped": the buffered sink was used and then Stop()ped before this call (shutdown path: no flush loop any
 \* more, Write still buffers, only Sync moves the bytes on).  "tee-fail-*": the first branch's sink fails its Write.
+\* "tee-on-sampledout": an accepting core followed by a core whose sampler drops the entry (the first must keep it).
 Cores == {"nop", "off", "on", "bws", "bws-stopped", "tee-on-on", "tee-off-on", "tee-on-bws", "tee-fail-on", "tee-fail-bws",
-          "sampled-out", "hooked-on", "inc-off"}
+          "tee-on-sampledout", "sampled-out", "hooked-on", "inc-off"}
 Fails(c, i) == c \in {"tee-fail-on", "tee-fail-bws"} /\ i = 1
 LeavesOf(c) == CASE c = "nop" -> <<>>
                  [] c = "off" -> << [acc |-> FALSE, bws |-> FALSE] >>
@@ -47,22 +48,24 @@ LeavesOf(c) == CASE c = "nop" -> <<>>
                  [] c = "tee-fail-on"  -> << [acc |-> TRUE, bws |-> FALSE], [acc |-> TRUE, bws |-> FALSE] >>
                  [] c = "tee-fail-bws" -> << [acc |-> TRUE, bws |-> FALSE], [acc |-> TRUE, bws |-> TRUE] >>
                  [] c = "tee-on-on"  -> << [acc |-> TRUE, bws |-> FALSE], [acc |-> TRUE, bws |-> FALSE] >>
+                 [] c = "tee-on-sampledout" -> << [acc |-> TRUE, bws |-> FALSE], [acc |-> FALSE, bws |-> FALSE] >>
                  [] c = "tee-off-on" -> << [acc |-> FALSE, bws |-> FALSE], [acc |-> TRUE, bws |-> FALSE] >>
                  [] c = "tee-on-bws" -> << [acc |-> TRUE, bws |-> FALSE], [acc |-> TRUE, bws |-> TRUE] >>
                  [] c = "sampled-out" -> << [acc |-> FALSE, bws |-> FALSE] >>   \* enabled, but the sampler drops it
                  [] c = "hooked-on" -> << [acc |-> TRUE, bws |-> FALSE] >>
                  [] c = "inc-off" -> << [acc |-> FALSE, bws |-> FALSE] >>
 \* core.Enabled(lvl): the sampled-out composition reports the level enabled
-EnabledOf(c) == c = "sampled-out" \/ \E i \in 1..Len(LeavesOf(c)) : LeavesOf(c)[i].acc
+EnabledOf(c) == c \in {"sampled-out", "tee-on-sampledout"} \/ \E i \in 1..Len(LeavesOf(c)) : LeavesOf(c)[i].acc
 
-VARIABLES fe, lvl, dev, hookcfg, core,     \* the case (constant during a behaviour)
+VARIABLES fe, lvl, dev, hookcfg, core, msg, \* the case (constant during a behaviour); msg: "text" | "empty"
           pc, accepting, cur, after,
           encoded, inSink, inBuf, synced,  \* per leaf
           ran, snap                        \* terminal action that ran; sink state when it ran
-vars == <<fe, lvl, dev, hookcfg, core, pc, accepting, cur, after, encoded, inSink, inBuf, synced, ran, snap>>
+vars == <<fe, lvl, dev, hookcfg, core, msg, pc, accepting, cur, after, encoded, inSink, inBuf, synced, ran, snap>>
 
 FeOK == (fe \in {"grpc", "grpcf", "grpcln"} => lvl = Fatal)
 Init == /\ fe \in FrontEnds /\ lvl \in Lvls /\ dev \in BOOLEAN /\ hookcfg \in HookCfgs /\ core \in Cores
+        /\ msg \in {"text", "empty"} /\ (msg = "empty" => core \in {"on", "off", "nop"})
         /\ FeOK
         /\ pc = "precheck" /\ accepting = <<>> /\ cur = 1 /\ after = "none"
         /\ encoded = [i \in 1..Len(LeavesOf(core)) |-> FALSE]
@@ -71,7 +74,7 @@ Init == /\ fe \in FrontEnds /\ lvl \in Lvls /\ dev \in BOOLEAN /\ hookcfg \in Ho
         /\ synced = [i \in 1..Len(LeavesOf(core)) |-> FALSE]
         /\ ran = "none" /\ snap = <<>>
 
-CaseUnch == UNCHANGED <<fe, lvl, dev, hookcfg, core>>
+CaseUnch == UNCHANGED <<fe, lvl, dev, hookcfg, core, msg>>
 \* front ends with a level guard of their own
 Guarded == \/ (fe \in {"sugar", "sugarf", "sugarw", "sugarln", "sugar.Logw"} /\ SugarGuard = "plain")
            \/ (fe = "grpcln" /\ GrpcGuard = "plain")
@@ -132,7 +135,7 @@ FlushedBefore == ran # "none" => \A i \in 1..Len(LeavesOf(core)) :
 OnlyAccepting == \A i \in 1..Len(LeavesOf(core)) : (inSink[i] \/ inBuf[i]) => LeavesOf(core)[i].acc
 
 EmitBeh == IF Emit /\ pc = "done"
-           THEN PrintT("@@BEH " \o ToJson([fe |-> fe, lvl |-> lvl, dev |-> dev, hook |-> hookcfg, core |-> core,
+           THEN PrintT("@@BEH " \o ToJson([fe |-> fe, lvl |-> lvl, dev |-> dev, hook |-> hookcfg, core |-> core, msg |-> msg,
                                             ran |-> ran, leaves |-> [i \in 1..Len(LeavesOf(core)) |-> [acc |-> LeavesOf(core)[i].acc, bws |-> LeavesOf(core)[i].bws, fail |-> Fails(core, i)]],
                                             final |-> [i \in 1..Len(LeavesOf(core)) |-> [inSink |-> inSink[i], inBuf |-> inBuf[i], synced |-> synced[i]]]]))
            ELSE TRUE
